@@ -424,6 +424,7 @@ def main(argv):
     # SMT-A: the linear constant evaluators eval_op_* verified from their AST for all operand values
     from checks import C06smt
     run.assume('SMT-A shifts (C06smt): for the symbolic counts >= width of eval_op_rshift/arshift one fact of Python int.__rshift__ is assumed as a quantified premise: -2^n <= a < 2^n and r >= n  =>  a >> r == (-1 if a < 0 else 0); counts below the width are enumerated and encoded exactly')
+    run.assume('SMT-A rotates (C06smt): counts 0..2n-1 and 2^n-1 enumerated; assumed fact of Python int.__or__ as hypothesis of the postcondition: a | b == a + b for a a non-negative multiple of 2^k and 0 <= b < 2^k; counts in [2n, 2^n-2] rest on the reduction r %= op_size (C14 contract of %), sampled by the native twin only')
     run.assume('SMT-A (C06smt): Python integers are mathematical; & | ^ with two symbolic operands are uninterpreted (congruence only) except masks 2^k-1 and operands below 256')
     C06smt.ob_smt(run)
     run.notes.append('eval_op_plus/mult/minus/and/or/xor/not/eq/inf/mullo/mulhi: proved for all operand values (SMT-A, callee contracts of C14); shifts, rotates, division, bit scans: shape-bounded SMT only')
